@@ -238,6 +238,15 @@ namespace C13
       dump_vec("A_u", y.local(), kx, ky);
       the_system_level.matrix_sys.apply(y, u, w, -0.5);
       dump_vec("w_minus_half_A_u", y.local(), kx, ky);
+      // the documented aliased forms r := r + alpha*A*x and r := r + alpha*A^T*x (target == summand)
+      {
+        GlobalSystemVector z = w.clone();
+        the_system_level.matrix_sys.apply(z, u, z, -0.5);
+        dump_vec("w_minus_half_A_u_aliased", z.local(), kx, ky);
+        z.copy(w);
+        the_system_level.matrix_sys.apply_transposed(z, u, z, -0.5);
+        dump_vec("w_minus_half_At_u_aliased", z.local(), kx, ky);
+      }
       // transposed products, diagonal and lumped rows of the global (type-0) matrix
       g_phase = "matvec_transposed";
       the_system_level.matrix_sys.apply_transposed(y, u);
@@ -596,6 +605,7 @@ namespace C13
       dump("A_u", y);
       sys.matrix_sys.apply(y, u, w, -0.5);
       dump("w_minus_half_A_u", y);
+      { GlobalSystemVector z = w.clone(); sys.matrix_sys.apply(z, u, z, -0.5); dump("w_minus_half_A_u_aliased", z); }
     }
     // ---- three-component tuple vector (velocity, pressure, second scalar field on the pressure space) over a
     //      TupleMirror<V,P,P> gate built from the component gates: sync_0 / sync_1 / dot / norm
